@@ -277,7 +277,16 @@ func (w *worker) noteConstraint(t *Term) {
 			if d, ok := ds[v]; ok {
 				w.dom[v] = d
 				if cur, has := w.cmodel[v]; !d.empty() && (!has || !d.has(uint(cur))) {
-					w.cmodel[v] = uint64(d.first())
+					// the cached model leaves the domain: move it, but only if no other
+					// constraint can be broken by doing so
+					switch {
+					case w.smallTainted:
+						w.modelOK = false
+					case len(w.csp) == 0:
+						w.cmodel[v] = uint64(d.first())
+					default:
+						w.repairSmallModel()
+					}
 				}
 			}
 		} else {
@@ -292,14 +301,32 @@ func (w *worker) noteConstraint(t *Term) {
 		return
 	}
 	w.csp = append(w.csp, t)
-	// repair the cached model for the small variables from a witness
+	if w.smallTainted {
+		return // addPC re-validates the cached model against t itself
+	}
+	w.repairSmallModel()
+}
+
+// repairSmallModel replaces the small-variable part of the cached model by a
+// witness of all domains and multi-variable small constraints. Only valid
+// while no constraint mixes small and wide variables.
+func (w *worker) repairSmallModel() {
 	if sat, ok := w.cspDecide(lit{tTrue, true}); ok && sat {
 		for v, d := range w.witness {
 			if !d.empty() {
 				w.cmodel[v] = uint64(d.first())
 			}
 		}
+		for v, d := range w.dom {
+			if _, inW := w.witness[v]; !inW && !d.empty() {
+				if cur, has := w.cmodel[v]; !has || !d.has(uint(cur)) {
+					w.cmodel[v] = uint64(d.first())
+				}
+			}
+		}
+		return
 	}
+	w.modelOK = false
 }
 
 func mentionsSmall(t *Term, seen map[*Term]bool) bool {
